@@ -190,7 +190,7 @@ func c02ModeFn(c *Ctx, m *Module) {
 				// must be under modefile == ""
 				okGate := hasFact(facts, func(f Fact) bool {
 					b, ok := f.Cond.(*ssa.BinOp)
-					if !ok || b.Op != token.EQL || !f.Pol {
+					if !ok || !assertsEq(b, f.Pol) {
 						return false
 					}
 					k2, isC2 := constOf(b.Y)
